@@ -135,6 +135,18 @@ class SharedModelHistory:
         return gen.configs().map(lambda cfg: {"op": "init", "cfg": cfg})
 
     def apply(self, job):
+        if job.get("out_of_range"):
+            # an earlier call with absurd numbers (far outside the supported range; it may raise): whatever it does, it must not
+            # change what LATER calls on this model return
+            try:
+                run_job(self.model, job)
+            except Exception:  # noqa: BLE001
+                pass
+            self.ctx.called()
+            if snapshot(self.model) != self.before:
+                raise Violation("attr-changed-by-out-of-range-call", f"{self.cfg['kind']} model attributes changed by a {job['op']} call with out-of-range values")
+            self.labels.append("out-of-range-call") if "out-of-range-call" not in self.labels else None
+            return
         got = guarded_job(self.model, job, "shared model")
         fresh = guarded_job(mk_model(self.cfg), job, "fresh model")
         self.ctx.called(2)
@@ -151,7 +163,20 @@ class SharedModelHistory:
     RULES = {}
 
 
+def _absurd(h):
+    beta = h.cfg["beta"]
+    big = st.sampled_from([1e3, 1e4, -1e4, 1e6, 1e150, -1e150])
+    return st.fixed_dictionaries({
+        "op": st.sampled_from(["rate", "rate", "predict_win", "predict_draw", "predict_rank"]),
+        "out_of_range": st.just(True),
+        "teams": st.lists(st.lists(st.tuples(big.map(lambda f: f * beta), st.sampled_from([1e-300, 1e-6, 1.0, 1e6, 1e150]).map(lambda f: f * beta)).map(list),
+                                   min_size=1, max_size=2), min_size=2, max_size=3),
+        "call": st.just({}),
+    })
+
+
 SharedModelHistory.RULES = {
+    "out_of_range_call": _absurd,
     "rate_or_predict": lambda h: jobs_for(h.cfg, max_teams=4, max_size=3),
     "rate_with_limit": lambda h: jobs_for(h.cfg, max_teams=3, max_size=2).map(
         lambda j: dict(j, op="rate", call=dict(j.get("call", {}), limit_sigma=True))),
@@ -199,6 +224,11 @@ def check_identity(case, ctx):
             key = repr(t)
             shared.append(objs[first.setdefault(key, i)])
         variants["value-equal-teams-as-one-object"] = guarded_job(m, job, "shared", shared)
+        # ratings are values: one object reused for every value-equal player (new = model.rating() used for all newcomers)
+        m = mk_model(cfg)
+        pool = {}
+        aliased = [[pool.setdefault((p[0], p[1]), m.rating(p[0], p[1])) for p in t] for t in job["teams"]]
+        variants["value-equal-players-as-one-object"] = guarded_job(m, job, "aliased", aliased)
     ctx.called(7)
     for name, res in variants.items():
         if res != base:
@@ -253,7 +283,7 @@ def check_interleaving(case, ctx):
 
 
 @st.composite
-def interleaving_cases(draw):
+def interleaving_cases(draw, min_pre=None):
     cfg = draw(gen.configs())
     k = draw(st.integers(2, 4))
     jobs = [draw(jobs_for(cfg, max_teams=3, max_size=2)) for _ in range(k)]
@@ -262,7 +292,8 @@ def interleaving_cases(draw):
         j = jobs[0]
         jobs[0] = dict(j, op="rate", call=dict(j.get("call", {}), limit_sigma=draw(st.sampled_from([True, False])),
                                                tau=draw(st.sampled_from([0.0, cfg["beta"], cfg["beta"] / 7.0]))))
-    pre = draw(st.lists(st.tuples(st.floats(0.0, 1.0), st.integers(0, k - 1)).map(list), min_size=draw(st.sampled_from([0, 1, 1, 2])), max_size=6))
+    pre = draw(st.lists(st.tuples(st.floats(0.0, 1.0), st.integers(0, k - 1)).map(list),
+                        min_size=draw(st.sampled_from([0, 1, 1, 2])) if min_pre is None else max(min_pre, draw(st.integers(1, 3))), max_size=6))
     on_write = draw(st.lists(st.one_of(st.none(), st.integers(0, k - 1)), min_size=0, max_size=4))
     return {"cfg": cfg, "jobs": jobs, "preemptions": pre, "opcodes": draw(st.integers(0, 3)) == 0, "on_write": on_write}
 
@@ -348,6 +379,77 @@ def check_hashcase(case, ctx):
 
 
 # ------------------------------------------------------------------------------------------------
+# clause 5b: interleavings at COLD START (each schedule in a fresh interpreter)
+# ------------------------------------------------------------------------------------------------
+def run_cold(case, tag):
+    cfg, jobs = case["cfg"], case["jobs"]
+    expected = []
+    total = 0
+    for job in jobs:
+        fresh = mk_model(cfg)
+        steps, res = count_steps(lambda fresh=fresh, job=job: run_job(fresh, job), opcodes=bool(case.get("opcodes")))
+        expected.append(res)
+        total += steps
+    here = os.path.dirname(os.path.dirname(os.path.dirname(os.path.abspath(__file__))))
+    work = os.path.join(here, ".work", f"c14-cold-{os.getpid()}-{tag}")
+    os.makedirs(work, exist_ok=True)
+    path = os.path.join(work, "case.json")
+    payload = dict(case, points=sorted((1 + int(fr * total), th) for fr, th in case["preemptions"]))
+    with open(path, "w") as f:
+        json.dump(payload, f)
+    try:
+        p = subprocess.run([sys.executable, "-B", "-m", "vf.coldchild", path], capture_output=True, text=True, timeout=300)
+    finally:
+        try:
+            os.remove(path)
+            os.rmdir(work)
+        except OSError:
+            pass
+    if p.returncode != 0:
+        raise HarnessError(f"cold-start child failed: {p.stderr[-2000:]}")
+    out = json.loads(p.stdout)
+    for i, (r, e, x) in enumerate(zip(out["results"], out["errors"], expected)):
+        if e is not None:
+            raise Violation("cold-start:raised", f"{cfg['kind']} job {i} {jobs[i]['op']} raised {e} in a fresh process under schedule {out['trace']}")
+        if r != x:
+            raise Violation(f"cold-start-interleaving-dependent:{jobs[i]['op']}",
+                            f"{cfg['kind']} job {i} {jobs[i]['op']} in a FRESH process under schedule {out['trace']} (of {total} steps): {r!r} != sequential {x!r}"[:1200])
+    return out
+
+
+def check_cold(case, ctx):
+    out = run_cold(case, "replay")
+    ctx.called(2 * len(case["jobs"]))
+    ctx.nontrivial_if(out["switches"] >= 1)
+
+
+def cold_custom(ctx, seed, tier, shard, nshards, n):
+    from hypothesis import HealthCheck, given, settings
+    from hypothesis import seed as hseed
+
+    cases = []
+
+    @hseed(seed)
+    @settings(max_examples=n, database=None, deadline=None, suppress_health_check=list(HealthCheck))
+    @given(interleaving_cases(min_pre=1))
+    def collect(c):
+        cases.append(c)
+
+    collect()
+    for k, case in enumerate(cases):
+        ctx.begin(case)
+        try:
+            out = run_cold(case, f"{shard}-{k}")
+        except Violation as v:
+            v.case = case
+            raise
+        ctx.called(2 * len(case["jobs"]))
+        ctx.label(f"switches:{min(out['switches'], 6)}", "ops:" + "+".join(sorted(set(j["op"] for j in case["jobs"]))))
+        ctx.nontrivial_if(out["switches"] >= 1)
+        ctx.end()
+
+
+# ------------------------------------------------------------------------------------------------
 # clause 6 (thorough only): free-running threads; can only add violations
 # ------------------------------------------------------------------------------------------------
 def stress_custom(ctx, seed, tier, shard, nshards, n):
@@ -424,6 +526,10 @@ PROPERTY = Property(
         Clause(name="hash-seed-and-call-order", kind="custom", custom=hashseed_custom, check=check_hashcase, quick=400, thorough=4000, shards_quick=4, shards_thorough=16,
                rule="generated calls (some duplicated under a model with another beta) serialised and executed in five fresh child interpreters, each with its own "
                     "PYTHONHASHSEED (0, 1, 2, 4242, random) and its own execution order (forward, reverse, rotated, evens-first); results compared exactly per call"),
+        Clause(name="cold-start-interleavings", kind="custom", custom=cold_custom, check=check_cold, quick=160, thorough=4800, shards_quick=16, shards_thorough=16,
+               rule="the same generated job sets and schedules, each executed in a FRESH child interpreter in which nothing has been called before "
+                    "(lazily filled module- or class-level tables, first-use initialisation): results compared with the sequential ones; non-trivial = a "
+                    "real preemption took place"),
         Clause(name="free-running-threads", kind="custom", custom=stress_custom, quick=0, thorough=400, shards_thorough=4,
                rule="sampled (OS-scheduled) stress: 2k threads x 5 repetitions on one model with switch interval 1e-6; can only add violations"),
     ],
